@@ -22,6 +22,13 @@ d = sh("git diff -- sqlglot", cwd=wt).stdout
 if d.strip():
     open(patch, "w").write(d)
 meta = {"id": sid, "property": prop, "checks_run": checks}
+_prev = os.path.join(ROOT, "seeded", sid, "meta.json")
+if os.path.exists(_prev):
+    _old = json.load(open(_prev))
+    for k in ("tests_with_change", "history"):
+        if k in _old:
+            meta[k] = _old[k]
+    meta.setdefault("history", []).append({"detected_by": _old.get("detected_by"), "check_results": {c: v.get("violations") for c, v in _old.get("check_results", {}).items()}})
 r = sh(f"git -C /repo apply --check {patch}")
 meta["applies_to_repo"] = r.returncode == 0
 if r.returncode:
@@ -41,7 +48,7 @@ if not skip_tests:
     r = sh("/venv/bin/python -m pytest -q -p no:cacheprovider -n 6 tests/ 2>&1 | tail -1", cwd=wt, env=env)
     meta["tests_with_change"] = r.stdout.strip()
     print("tests:", meta["tests_with_change"], f"({time.time()-t:.0f}s)")
-ok = meta["demo_with_change_exit"] != 0 and meta["demo_without_change_exit"] == 0 and (skip_tests or (" passed" in meta.get("tests_with_change", "") and "failed" not in meta.get("tests_with_change", "")))
+ok = meta["demo_with_change_exit"] != 0 and meta["demo_without_change_exit"] == 0 and (" passed" in meta.get("tests_with_change", "") and "failed" not in meta.get("tests_with_change", ""))
 meta["qualifies"] = ok
 # run checks against /repo with the patch applied
 sh(f"git -C /repo apply {patch}")
